@@ -53,6 +53,18 @@ def _c08_bem(case, v):
     return bool(keys) and all(k == 'emmet.markup.addon.bem.get_block_name.__defaults__[2]' for k in keys)
 
 
+@family('C15_text_only_child')
+def _c15_text_only(case, v):
+    """the abbreviation contains a text-only node `{text}`: the indent formatter does not start a line for it"""
+    def has(seq):
+        for item, op in seq:
+            if item['k'] == 'group':
+                if has(item['body']): return True
+            elif not item.get('name') and not item.get('mentions') and item.get('text') is not None: return True
+        return False
+    return 'seq' in case and has(case['seq'])
+
+
 def attribute(known, prop, domname, dom, case, v):
     for f in known:
         if f.get('domain') and f['domain'] != domname: continue
